@@ -9,7 +9,7 @@ import (
 
 func init() {
 	props["C06"] = c06
-	floors["C06"] = map[string]int{"C06.R1": 4, "C06.R2": 3, "C06.R3": 3, "C06.R4": 6, "C06.R5": 5, "C06.R6": 2, "C06.R7": 2}
+	floors["C06"] = map[string]int{"C06.R1": 4, "C06.R2": 3, "C06.R3": 3, "C06.R4": 6, "C06.R5": 5, "C06.R6": 2, "C06.R7": 4}
 }
 
 // litFieldStores returns, for a struct allocated in fn (composite literal or
@@ -400,6 +400,22 @@ func c06(r *Report) {
 					}
 				}
 				r.Paths += len(paths)
+				// and the name is the client's SNI or the configured fallback host, nothing else
+				srcBad := ""
+				for _, leaf := range resolveAll(h) {
+					if ld, isLd := leaf.(*ssa.UnOp); isLd && ld.Op == token.MUL {
+						if fa, isFa := ld.X.(*ssa.FieldAddr); isFa && fieldObj(fa).Name() == "ServerName" && fa.X.Type().String() == "*crypto/tls.ClientHelloInfo" {
+							if _, isPar := fa.X.(*ssa.Parameter); isPar {
+								continue
+							}
+						}
+					}
+					if par, isPar := resolveFree(leaf).(*ssa.Parameter); isPar && par.Parent() == f.Parent() {
+						continue
+					}
+					srcBad = describeVal(leaf)
+				}
+				r.Decide("flow", "name passed to cert() in "+fnName(f)+" is the SNI or the caller's fallback host", srcBad == "", "every value reaching cert() is clientHello.ServerName or the host the enclosing function was given", "the certificate name can come from "+srcBad+": when the client names no host the handshake is answered with a certificate for something else instead of being refused", c.Pos())
 				r.Decide("path", key, ok, "the name passed to cert() was compared with \"\" and the empty edge does not issue", "a certificate can be issued for an empty host name (no SNI and no fallback host): an arbitrary certificate instead of a refusal", c.Pos())
 			}
 		}
